@@ -482,6 +482,33 @@ void failing_streams()
         else
           VF_COUNT("stream/failing/plain-eof");
       }
+      // a stream that refuses to seek: set_position must report it (the documented internal exception, turned into a
+      // parse failure by the entry points), never continue silently at a wrong offset
+      if (mode == 2 && limit == text.size())
+      {
+        fault_buf<Ch> buf(text, limit, mode);
+        std::basic_istream<Ch> is(&buf);
+        fcppt::parse::detail::stream<Ch> st{fcppt::reference_to_base<std::basic_istream<Ch>>(fcppt::make_ref(is))};
+        bool reported = false;
+        std::size_t after = 0;
+        try
+        {
+          auto saved = st.get_position();
+          (void)st.get_char();
+          (void)st.get_char();
+          st.set_position(saved);
+          auto c = st.get_char();
+          after = c.has_value() ? (c.get_unsafe() == text[0] ? 1 : 2) : 0;
+        }
+        catch (fcppt::parse::detail::exception<Ch> const &)
+        {
+          reported = true;
+        }
+        VF_COUNT("stream/failing/unseekable-rewind");
+        if (!reported && after != 1)
+          vf::violation(e + "/unseekable-rewind-continued-at-wrong-offset", "mismatch",
+                        "set_position on a stream that cannot seek neither failed nor restored the position");
+      }
       // once the stream went bad, a rewind must not revive it: no character may be produced after set_position(saved)
       if (mode == 1 && limit < text.size())
       {
@@ -539,7 +566,7 @@ void body()
                         "stream/rewind-across-newline", "stream/restore-directly-after-eof-read", "stream/double-restore",
                         "stream/interleavings", "stream/messages-checked", "stream/messages-at-eof",
                         "stream/file-interleavings", "stream/failing/bad-stream-reported", "stream/failing/plain-eof",
-                        "stream/failing/entry-point-runs", "stream/failing/rewind-after-bad"})
+                        "stream/failing/entry-point-runs", "stream/failing/rewind-after-bad", "stream/failing/unseekable-rewind"})
     vf::require_bucket(b);
   exhaustive<char>(vf::tier<unsigned>(7, 10));
   exhaustive<wchar_t>(vf::tier<unsigned>(6, 9));
